@@ -316,3 +316,47 @@ func C14_QuotedAt() {
 		}
 	}
 }
+
+// C14_Len: the result of an unquoted ${#x} is subject to field splitting like
+// any other expansion: with a digit in IFS its digits are cut.
+func C14_Len() {
+	n := []int{3, 10, 12, 101}[nd.Choice(4)]
+	val := ""
+	for k := 0; k < n; k++ {
+		val += "v"
+	}
+	env := interp.NewExecEnv("sh")
+	env.Opts = interp.NoGlob
+	env.Set("x", val)
+	ifs := nd.StrIn(1, "012 ,")
+	env.Set("IFS", ifs)
+	quoted := nd.Choice(2) == 1
+	pre, post := nd.Choice(2) == 1, nd.Choice(2) == 1
+	pe := &ast.ParamExp{Braces: true, Name: &ast.Lit{Value: "x"}, Op: "#"}
+	var w ast.Word
+	var segs []seg
+	if pre {
+		w = append(w, &ast.Lit{Value: "a"})
+		segs = append(segs, seg{"a", true})
+	}
+	if quoted {
+		w = append(w, &ast.Quote{Tok: `"`, Value: ast.Word{pe}})
+	} else {
+		w = append(w, pe)
+	}
+	segs = append(segs, seg{itoa(n), quoted})
+	if post {
+		w = append(w, &ast.Lit{Value: "b"})
+		segs = append(segs, seg{"b", true})
+	}
+	got, err := env.Expand(w, 0)
+	want := refSplit(segs, ifs)
+	nd.Observe(itoa(n) + " IFS=" + ifs)
+	nd.Assert(err == nil, "field splitting reports no error")
+	nd.Assert(len(got) == len(want), "number of fields of a word containing ${#x}")
+	if len(got) == len(want) {
+		for i := range got {
+			nd.Assert(got[i] == want[i], "field content of a word containing ${#x}")
+		}
+	}
+}
